@@ -31,10 +31,13 @@
 EXTENDS Integers, Sequences, FiniteSets, TLC
 
 CONSTANTS Depths,        \* nesting depths / chain lengths to try
+          SelDepths,     \* nesting depths for selection sets made of inline fragments: around the parser's documented
+                         \* limit (MAX_RECURSION_DEPTH = 64) and far beyond
           LightDepths,   \* depths for positions whose handling is super-linear (cost only)
           Sizes,         \* lengths of names / numbers of repeated items
           Cuts,          \* truncation points, in twentieths of the payload
-          SafeDepth,     \* a nesting depth that certainly fits the stack of a server thread (2 MiB)
+          SafeDepth,     \* a nesting depth of list / object values and list types that certainly fits the stack of a server thread (2 MiB)
+          SafeSel,       \* a nesting depth of selection sets that certainly fits it (a level of selection costs less stack)
           SafeChain,     \* a fragment-chain length that certainly fits it
           HeavyTransports,  \* transports for the size-parameterised document classes
           Wide,          \* TRUE: the larger grid of block-string shapes (thorough tier)
@@ -106,6 +109,12 @@ BsOthers      == {"none", "small", "big"} \cup (IF Wide THEN {"small_first", "ta
 BsSubs        == {i \o "." \o ld \o "." \o ct \o "." \o o : i \in BsIndents, ld \in BsLeads, ct \in BsContents, o \in BsOthers}
 BsPos         == {"arg", "var_default", "input_field"} \cup (IF Wide THEN {"arg_first_line", "list_item"} ELSE {})
 
+\* selection sets nested through inline fragments: untyped `... {`, typed `... on T {`, with a directive, typed / untyped /
+\* field in turn, inline fragment and field in turn, and the same inside a fragment definition; sub = server configuration:
+\* "" (defaults: limit_recursive_depth 32) or "raised" (the application raised limit_recursive_depth, so that the parser's
+\* own nesting limit is the only bound left)
+InlinePos     == {"inline_untyped", "inline_typed", "inline_directive", "inline_mixed", "inline_alt_field", "inline_in_fragment",
+                  "inline_mixed_in_fragment"}
 C(cl, p, k, t) == [class |-> cl, pos |-> p, sub |-> "", k |-> k, transport |-> t]
 C2(cl, p, sb, k, t) == [class |-> cl, pos |-> p, sub |-> sb, k |-> k, transport |-> t]
 \* document-borne classes: the hostile part is in the query text / variables / extensions and travels over every transport
@@ -117,6 +126,8 @@ DocCases ==
   \cup {C("nest_obj", "lit_inp", k, t) : k \in LightDepths, t \in HeavyTransports}
   \cup {C("nest_obj", "json_vars", k, t) : k \in Depths, t \in HeavyTransports \cap Wire}
   \cup {C("nest_sel", p, k, t) : p \in {"field", "inline", "fragment_def", "unclosed"}, k \in Depths, t \in HeavyTransports}
+  \cup {C2("nest_sel", p, sb, k, t) : p \in InlinePos, sb \in {"", "raised"}, k \in SelDepths, t \in HeavyTransports}
+  \cup {C2("nest_sel", p, "raised", k, "execute") : p \in {"field", "inline", "fragment_def"}, k \in SelDepths}
   \cup {C("nest_vartype", p, k, t) : p \in {"list", "nonnull"}, k \in Depths, t \in HeavyTransports}
   \cup {C(cl, p, k, t) : cl \in {"frag_chain", "frag_cycle"}, p \in {"spread", "unused"}, k \in Depths, t \in HeavyTransports}
   \* k digits; k even: a literal in the document, k odd: a JSON number in the variables
@@ -229,14 +240,21 @@ Allowed(c) == CASE Expect(c) = "error" -> {"errors", "reject", "close"}
 (* Named deviations of today's code.  Each is triggered by a syntactic feature   *)
 (* of the input (computed by the harness from the payload bytes) and excuses     *)
 (* exactly one kind of crash.                                                    *)
-\* feat = [depth: deepest nesting of [ and { in the payload, frags: number of fragment definitions]
+\* feat = [depth: deepest nesting of [ and { in the payload,
+\*         val: deepest nesting of [ (anywhere) and of { inside parentheses (argument values, variable definitions),
+\*         sel: deepest nesting of { outside parentheses (selection sets; objects of a JSON body),
+\*         frags: number of fragment definitions]
+\* A level of value nesting costs the recursive-descent parser about three times the stack of a level of selection nesting
+\* (measured on the unchanged tree, 2 MiB: object values die between 1000 and 1500, list values between 2000 and 2500, selection
+\* sets between 4500 and 5000): the trigger is a stack budget, val / SafeDepth + sel / SafeSel > 1.
 \* (the switches DevUploadMarker, DevUndefinedType and DevNestedMultipart are gone: fixed in /repo, see known_findings/C12.json)
 DevParserDepth    == "DevParserDepth"        \* the pest parser recurses on nesting before any depth check
 DevFragmentChain  == "DevFragmentChain"      \* NoFragmentCycles::detect_from recurses along spreads of unused fragments
 AllDevs == {DevParserDepth, DevFragmentChain}
 
+OverBudget(feat) == feat.val * SafeSel + feat.sel * SafeDepth > SafeDepth * SafeSel
 Triggered(feat) ==
-  (IF feat.depth > SafeDepth THEN {DevParserDepth} ELSE {}) \cup (IF feat.frags > SafeChain THEN {DevFragmentChain} ELSE {})
+  (IF OverBudget(feat) THEN {DevParserDepth} ELSE {}) \cup (IF feat.frags > SafeChain THEN {DevFragmentChain} ELSE {})
 CrashOf(d) == "abort"
 \* deviations that explain the observed crash on this input
 Explains(feat, outcome) == {d \in Triggered(feat) : CrashOf(d) = outcome}
@@ -246,6 +264,8 @@ Explains(feat, outcome) == {d \in Triggered(feat) : CrashOf(d) = outcome}
 (* in mode V the harness reports the features of the bytes it actually sent).    *)
 NestClasses == {"nest_list", "nest_obj", "nest_sel", "nest_vartype"}
 FeatOf(c) == [depth  |-> IF c.class \in NestClasses THEN c.k ELSE 0,
+              val    |-> IF c.class \in NestClasses \ {"nest_sel"} THEN c.k ELSE 0,
+              sel    |-> IF c.class = "nest_sel" THEN c.k ELSE 0,
               frags  |-> IF c.class \in {"frag_chain", "frag_cycle"} THEN c.k ELSE 0]
 
 --------------------------------------------------------------------------------
@@ -260,7 +280,8 @@ ErrorOf(s, c) == IF s = "decode" THEN (IF c.transport = "ws" THEN "close" ELSE "
 Recursion(s, c) == CASE s = "parse" /\ c.class \in NestClasses -> c.k
                      [] s = "validate" /\ c.class \in {"frag_chain", "frag_cycle"} -> c.k
                      [] OTHER -> 0
-Limit(s) == IF s = "parse" THEN SafeDepth ELSE SafeChain          \* the bound an ideal stage enforces before descending
+\* the bound an ideal stage enforces before descending
+Limit(s, c) == IF s = "parse" THEN (IF c.class = "nest_sel" THEN SafeSel ELSE SafeDepth) ELSE SafeChain
 DevOf(s) == IF s = "parse" THEN DevParserDepth ELSE DevFragmentChain
 
 Init == case \in Cases /\ stage = "start" /\ level = 0 /\ answer = "none"
@@ -271,9 +292,9 @@ Start == stage = "start" /\ stage' = FirstStage(case) /\ UNCHANGED <<case, level
 \* stage's deviation on, it descends without looking and dies when the stack is exhausted (modelled at 2 x the limit).
 Descend == /\ stage \in {"parse", "validate"} /\ answer = "none" /\ level < Recursion(stage, case)
            /\ IF DevOf(stage) \notin Dev
-              THEN IF level >= Limit(stage) THEN answer' = "errors" /\ level' = 0
+              THEN IF level >= Limit(stage, case) THEN answer' = "errors" /\ level' = 0
                                             ELSE answer' = answer /\ level' = IF level + 100 < Recursion(stage, case) THEN level + 100 ELSE Recursion(stage, case)
-              ELSE IF level >= 2 * Limit(stage) THEN answer' = "abort" /\ level' = 0
+              ELSE IF level >= 2 * Limit(stage, case) THEN answer' = "abort" /\ level' = 0
                                                 ELSE answer' = answer /\ level' = IF level + 100 < Recursion(stage, case) THEN level + 100 ELSE Recursion(stage, case)
            /\ UNCHANGED <<case, stage>>
 
